@@ -130,6 +130,94 @@ func runConnack(cc connackCase) (viol string) {
 	return ""
 }
 
+// runReconnect: the server drops the connection (the application does not call
+// Disconnect), the application connects again with the same client identifier
+// and subscribes another filter.  The callbacks of the first connection's
+// requests are gone with that connection: a delivery on the old filter invokes
+// nobody, one on the new filter its callback exactly once.
+func runReconnect(how string) (viol string) {
+	body := func() {
+		w := NewClientWorld()
+		if !w.Connected("cid") {
+			return
+		}
+		w.Srv.Take()
+		r1, err := w.Issue("sub", []string{"old/#"}, []byte{1}, "")
+		if err != nil {
+			vsched.Failf("Subscribe failed: %v", err)
+			return
+		}
+		w.Settle()
+		ps := w.Srv.Take()
+		if len(ps) != 1 || ps[0].Type != refcodec.SUBSCRIBE {
+			vsched.Failf("harness: %s on the wire", Describe(ps))
+			return
+		}
+		w.ServerSend(&refcodec.Packet{Type: refcodec.SUBACK, ID: ps[0].ID, Codes: []byte{1}})
+		w.Settle()
+		w.ServerSend(&refcodec.Packet{Type: refcodec.PUBLISH, Topic: []byte("old/x"), Payload: []byte("first")})
+		w.Settle()
+		if d := w.TakeDeliveries(); len(d[r1.Idx]) != 1 {
+			vsched.Failf("harness: the first connection's callback saw %s", fmtDeliv(d))
+			return
+		}
+		switch how {
+		case "server closes":
+			w.Srv.Cut()
+		case "server sends garbage":
+			w.Srv.SendRaw([]byte{0xf0, 0x00})
+		}
+		w.Settle()
+		if alive := LibThreadsAlive(); len(alive) > 0 {
+			vsched.Failf("after the server ended the connection (%s) %d library goroutines are still alive: %s", how, len(alive), core.ParkedString(alive))
+			return
+		}
+		// again, same client identifier
+		w.ConnDone, w.ConnErr = false, nil
+		if w.StartConnect("cid", 60, 0) == nil {
+			return
+		}
+		w.Srv.Send(&refcodec.Packet{Type: refcodec.CONNACK})
+		w.Settle()
+		if !w.ConnDone || w.ConnErr != nil {
+			vsched.Failf("Connect after the server had ended the first connection (%s): done=%v err=%v", how, w.ConnDone, w.ConnErr)
+			return
+		}
+		r2, err := w.Issue("sub", []string{"new/#"}, []byte{1}, "")
+		if err != nil {
+			vsched.Failf("Subscribe on the second connection failed: %v", err)
+			return
+		}
+		w.Settle()
+		ps = w.Srv.Take()
+		if len(ps) != 1 || ps[0].Type != refcodec.SUBSCRIBE {
+			vsched.Failf("harness: %s on the wire", Describe(ps))
+			return
+		}
+		w.ServerSend(&refcodec.Packet{Type: refcodec.SUBACK, ID: ps[0].ID, Codes: []byte{1}})
+		w.Settle()
+		w.ServerSend(&refcodec.Packet{Type: refcodec.PUBLISH, Topic: []byte("old/x"), Payload: []byte("second")})
+		w.ServerSend(&refcodec.Packet{Type: refcodec.PUBLISH, Topic: []byte("new/x"), Payload: []byte("third")})
+		w.Settle()
+		d := w.TakeDeliveries()
+		if len(d[r1.Idx]) != 0 {
+			vsched.Failf("the message callback of a Subscribe request of the first connection was invoked on the second connection: %s", fmtDeliv(d))
+			return
+		}
+		if len(d[r2.Idx]) != 1 {
+			vsched.Failf("the second connection's callback for new/# was invoked %d times for one delivery: %s", len(d[r2.Idx]), fmtDeliv(d))
+		}
+	}
+	res := explore.RunDefault(body)
+	if res.Status == vsched.StCrash {
+		return "a library goroutine panicked: " + firstLine(res.Crash)
+	}
+	if len(res.Failures) > 0 {
+		return res.Failures[0]
+	}
+	return ""
+}
+
 // ---- dispatch histories ----------------------------------------------------
 
 type cop struct {
@@ -551,6 +639,19 @@ func C20(c *core.Ctx) {
 	}
 	c.Rep.Scenarios++
 	c.Rep.Sample(map[string]interface{}{"search": "connack", "cases": len(connackCases())})
+	if c.NShards <= 1 || c.Shard == 0 {
+		for _, how := range []string{"server closes", "server sends garbage"} {
+			v := runReconnect(how)
+			c.Rep.Evaluations++
+			c.Rep.Executions++
+			c.Rep.States++
+			if v != "" {
+				if c.Violate("C20 reconnect "+violClass(v), core.Replay{Scenario: "reconnect: " + how + ", Connect again with the same client id", Message: v}) {
+					return
+				}
+			}
+		}
+	}
 	// framing: a delivery for every remaining length 5..300 (the length field has
 	// boundaries of its own: 127/128, multiples of 128)
 	for base := 5; base <= 300; base += 8 {
